@@ -1146,7 +1146,7 @@ def main():
         replay = json.load(open(a.replay))
         seed = int(replay["seed"])
         tier = replay.get("tier", tier)
-    ncrates, ntypes = (1, 300) if tier == "quick" else (16, 600)
+    ncrates, ntypes = (1, 300) if tier == "quick" else (48, 600)
     if replay:
         ncrates = int(replay.get("ncrates", ncrates))
         ntypes = int(replay.get("ntypes", ntypes))
